@@ -39,6 +39,8 @@ def cases(tier, seed):
             yield {"kind": "mt", "pattern": pat, "depth": depth, "fast_pred_var": fpv, "detach": True, "n": 4, "m": 2, "t": 2, "seed": rnd.randrange(10**6)}
         for depth in (1, 2):
             yield {"kind": "modellist", "depth": depth, "seed": rnd.randrange(10**6)}
+        for members, fpv in itertools.product((["fixed", "gauss"], ["gauss", "fixed"], ["fixed", "fixed"], ["fixed", "gauss", "fixed"], ["fixed+learn", "gauss"]), [False, True]):
+            yield {"kind": "modellist", "depth": rnd.choice([1, 2]), "members": members, "fast_pred_var": fpv, "seed": rnd.randrange(10**6)}
         for pol, fpv in itertools.product(["mask", "fill"], [False, True]):
             yield {"kind": "nan_source", "policy": pol, "fast_pred_var": fpv, "n": 6, "m": 2, "seed": rnd.randrange(10**6), "hostile": True}
 
@@ -315,41 +317,58 @@ def _modellist(case, ctx, g):
     import torch
 
     import gpytorch
+    from gpytorch import settings as S
     from vf import util
 
-    models, data = [], []
-    for n in (4, 6):
+    kinds = case.get("members", ["gauss", "gauss"])
+    models, data, noises = [], [], []
+    for kind, n in zip(kinds, (4, 6, 5)):
         X, y = util.randn(g, n, 2), util.randn(g, n)
-        lik = gpytorch.likelihoods.GaussianLikelihood()
+        if kind == "gauss":
+            lik, fixed = gpytorch.likelihoods.GaussianLikelihood(), None
+        else:
+            fixed = util.rand(g, n) * 0.4 + 0.05
+            lik = gpytorch.likelihoods.FixedNoiseGaussianLikelihood(noise=fixed, learn_additional_noise=kind == "fixed+learn")
         mdl = util.GP(X, y, lik, util.build_mean("constant", 2), util.build_kernel({"k": "scale", "base": {"k": "rbf"}}, 2))
         util.randomize(mdl, g, 0.5)
         models.append(mdl)
         data.append((X, y))
+        noises.append(fixed)
     ml = gpytorch.models.IndependentModelList(*models)
     ml.eval()
     xs, probe = util.randn(g, 3, 2), util.randn(g, 2, 2)
-    with torch.no_grad():
-        ml(xs, xs)
+    fpv = bool(case.get("fast_pred_var"))
+    with torch.no_grad(), S.fast_pred_var(fpv):
+        ml(*[xs for _ in models])
         cur = ml
         for level in range(case["depth"]):
+            # the same number of fantasy points for every member (a leaked per-member argument would still fit)
             Xfs = [util.randn(g, 2, 2) for _ in models]
             yfs = [util.randn(g, 2) for _ in models]
+            # per-member fantasy noise: a tensor for fixed-noise members, None for homoskedastic ones
+            fn = [None if k_ == "gauss" else util.rand(g, 2) * 0.4 + 0.05 for k_ in kinds]
+            kw = {"noise": fn} if any(f_ is not None for f_ in fn) else {}
             snaps = [_snapshot(m_, probe) for m_ in cur.models]
             try:
-                fm = cur.get_fantasy_model(Xfs, yfs)
+                fm = cur.get_fantasy_model(Xfs, yfs, **kw)
             except Exception as e:
                 ctx.fail("fantasy_raises", f"IndependentModelList.get_fantasy_model raised {type(e).__name__}: {str(e)[:160]}", "raise", exc=type(e).__name__, modellist=True)
                 break
             for m_, sn in zip(cur.models, snaps):
                 _ensure_unchanged(ctx, m_, sn, probe, "modellist member")
             data = [(torch.cat([X, Xf], -2), torch.cat([y, yf], -1)) for (X, y), Xf, yf in zip(data, Xfs, yfs)]
-            outs = fm(xs, xs)
-            for mdl, (Xa, ya), o in zip(models, data, outs):
+            noises = [None if nz is None else torch.cat([nz, f_], -1) for nz, f_ in zip(noises, fn)]
+            outs = fm(*[xs for _ in models])
+            for mdl, kind, (Xa, ya), nz, o in zip(models, kinds, data, noises, outs):
                 Kxx, Ksx, Kss, mx, ms = util.prior_pieces(mdl, Xa, xs)
-                Sn = mdl.likelihood.noise.detach() * torch.eye(Xa.shape[-2])
+                if kind == "gauss":
+                    Sn = mdl.likelihood.noise.detach() * torch.eye(Xa.shape[-2])
+                else:
+                    Sn = torch.diag(nz + (mdl.likelihood.second_noise.detach().reshape(()) if kind == "fixed+learn" else 0.0))
                 rm, rc, _, _ = util.dense_conditional(Kxx, Ksx, Kss, mx, ms, Sn, ya)
-                ctx.close("fantasy_mean", o.mean, rm, "direct", cls="modellist:mean")
-                ctx.close("fantasy_covar", o.covariance_matrix, rc, "direct", cls="modellist:covar")
+                tol = "loose" if fpv else "direct"
+                ctx.close("fantasy_mean", o.mean, rm, tol, cls="modellist:mean:" + kind + (":fpv" if fpv else ""))
+                ctx.close("fantasy_covar", o.covariance_matrix, rc, tol, cls="modellist:covar:" + kind + (":fpv" if fpv else ""))
             cur = fm
     ctx.cell({k: v for k, v in case.items() if k != "seed"})
 
